@@ -11,6 +11,8 @@ Inductive behaviour :=
 | BRet (v : json)
 | BRpc (code : Z) (msg : string) (data : option json)    (* raises JsonRpcError(code, msg, data) *)
 | BExc (tag : nat)                       (* raises some other exception carrying a marker *)
+| BBindFail                              (* never reached: binding itself fails with an unexpected exception (a view whose constructor
+                                            raises) - the catch-all of _handle_request answers -32603 Internal error *)
 | BRpcArgs.                              (* sets code / message / data of ONE long-lived error object from its arguments and raises it *)
 Record mdesc := { md_name : string; md_sig : sig; md_ctx : ctxmode; md_body : behaviour }.
 
@@ -46,13 +48,16 @@ Definition args_error (e : env) : option rpc_error :=
 Definition body_of (b : behaviour) (e : env) : outcome :=
   match b with
   | BRpcArgs => match args_error e with Some err => ORpc err | None => OExc 99 end
+  | BBindFail => OExc 98
   | BEnv => ORet (env_json e)
   | BRet v => ORet v
   | BRpc c m d => ORpc {| e_code := c; e_msg := m; e_data := d; e_class := "JsonRpcError" |}
   | BExc t => OExc t
   end.
 
+Definition bind_fails (m : mdesc) : bool := match md_body m with BBindFail => true | _ => false end.
 Definition rmethod_of (m : mdesc) : rmethod := fun ctx p =>
+  if bind_fails m then MInternal else
   match method_invoke (md_sig m) (md_ctx m) ctx (to_pparams p) with
   | InvInvalid => MInvalid (JArr [TEXT])
   | InvCallFail => MCallFail
